@@ -60,13 +60,15 @@ Asrt(r)      == Stmt("assert", 0, 0, "", r)        \* r = "ok" | "fail" | "mal"
 RtErr        == Stmt("rterr", 0, 0, "", "")        \* a statement that fails at run time (fail "...")
 TyErr        == Stmt("tyerr", 0, 0, "", "")        \* a statement the static checker rejects
 
-Positions == {"top", "nested", "funcBody", "callback", "failMsg", "moduleBody", "moduleOut"}
+Positions == {"top", "nested", "funcBody", "callback", "failMsg", "moduleBody", "moduleOut", "fmtExpr"}
 (* the let whose derived shape is an unresolved import is resolved statically
    (typecheck/mod.rs:1473): direct import, call result, func-op result, module
    out-expression -- as rendered by vp/buildproj.py *)
 StaticVisible(pos) == pos \in {"top", "funcBody", "callback", "moduleOut"}
 (* positions the AST walker does not descend into (walk.rs:128-141,150-155,189-192) *)
-WalkerBlind(pos) == pos \in {"callback", "failMsg", "moduleOut"}
+(* "fmtExpr": inside the @{...} of a format string - parsed out of the template while translating,  *)
+(* after the walk (translate.rs translate_template_part); rewritten there since its own fix commit *)
+WalkerBlind(pos) == pos \in {"callback", "failMsg", "moduleOut", "fmtExpr"}
 
 (* ---- paths: sequences of components ------------------------------------- *)
 (* "/" is the scratch root; the project lives in /p and /p/s; /q is elsewhere *)
